@@ -698,6 +698,9 @@ func loadSpecFiles(root string) (*SpecFile, []string, error) {
 				if parts[1] == "bool" {
 					sort = SBool
 				}
+				if parts[1] == "bytes" {
+					sort = SBytes
+				}
 				sf.GhostVars[parts[0]] = sort
 				cur = nil
 			case "ghostfield":
